@@ -118,3 +118,23 @@ example : (segments [] ["PKGNAME=a-1".toList, [], "PKGNAME=b-2".toList, "CATEGOR
 theorem C16_field_is_last_line_of_block (blk : List Str) (key : String) :
     (keyValues blk).get key = S.scalar blk key :=
   kv_get_eq_scalar blk key
+
+/-- **List fields** (`ALL_DEPENDS`, `SCAN_DEPENDS`, `MULTI_VERSION`): the items are exactly the
+    maximal blank-free runs of the field's value, in order — the value is a blank gap, an item, a
+    gap, an item, …, each item non-empty, blank-free and followed by the end or a blank. -/
+theorem C16_list_items (v : Str) : Words v (splitWhitespace v) :=
+  splitWhitespace_words v
+
+/-- … and that description determines the item list: any list that fits it is the one returned -/
+theorem C16_list_items_unique (v : Str) (ws : List Str) (h : Words v ws) : ws = splitWhitespace v :=
+  Words_unique v ws _ h (splitWhitespace_words v)
+
+/-- non-vacuity: two items between three gaps -/
+example : splitWhitespace " a  bc\t".toList = ["a".toList, "bc".toList] := by decide
+
+/-- "trimmed": the key and the value of a `KEY=VALUE` line lose exactly their leading and
+    trailing blanks — the text in between is kept as is and neither starts nor ends with a blank -/
+theorem C16_trim (s : Str) :
+    ∃ g1 g2, s = g1 ++ trim s ++ g2 ∧ (∀ c ∈ g1, isWhite c = true) ∧ (∀ c ∈ g2, isWhite c = true) ∧
+      (trim s).head?.map isWhite ≠ some true ∧ (trim s).getLast?.map isWhite ≠ some true :=
+  trim_spec s
